@@ -106,6 +106,9 @@ func HookOf(d M) M {
 	if data == "p0" || data == "" || (to != "u1" && to != "u2" && to != "u3") {
 		return M{"kind": "none", "signer": "", "msgs": []any{}}
 	}
+	if data == "hu" {
+		return M{"kind": "undecodable", "signer": "", "msgs": []any{}}
+	}
 	msgs := []any{M{"kind": "withdraw", "to": d["from"], "denom": d["l2denom"], "amt": d["amt"]}}
 	if data == "hwf" {
 		msgs = append(msgs, M{"kind": "send", "to": "panic", "denom": d["l2denom"], "amt": int64(1)})
